@@ -34,6 +34,7 @@ class Path:
         self.env = {}
         self.value = None
         self.ret_stmt = None
+        self.raised = None     # the Raise statement that ends the path
         self.stores = {}       # local name -> position of its last store
 
     def fork(self):
@@ -93,8 +94,9 @@ def _helper_of(func, call):
     """the private same-class method / module function a call goes to"""
     from .model import dotted
     d = dotted(call.func) or ''
-    if d.startswith('self.') and d.count('.') == 1 and func.cls is not None:
-        name = d[5:]
+    if func.cls is not None and d.count('.') == 1 and \
+            d.split('.')[0] in ('self', 'cls', func.cls.name):
+        name = d.split('.')[1]
         if name.startswith('_') and not name.startswith('__'):
             m = func.cls.find_method(name)
             if m is not None and m is not func:
@@ -151,7 +153,10 @@ class _Subst(ast.NodeTransformer):
 _HELPER_CACHE = {}
 
 
-def return_paths(func, max_paths=400, inline=True, _depth=0):
+def return_paths(func, max_paths=400, inline=True, _depth=0,
+                 with_raises=False):
+    """with_raises: paths that end in a `raise` statement are reported too
+    (Path.raised is the Raise statement, Path.value is None)"""
     done = []
     overflow = [False]
 
@@ -196,6 +201,10 @@ def return_paths(func, max_paths=400, inline=True, _depth=0):
             done.append(p)
             return []
         if isinstance(st, ast.Raise):
+            if with_raises:
+                p.effects.append(st)
+                p.raised = st
+                done.append(p)
             return []
         if isinstance(st, (ast.Continue, ast.Break)):
             # only met when a loop body is analysed as a block: the
@@ -227,7 +236,7 @@ def return_paths(func, max_paths=400, inline=True, _depth=0):
             if st.orelse:
                 outs = run(st.orelse, outs)
             for h in st.handlers:
-                if not always_exits(h.body):
+                if with_raises or not always_exits(h.body):
                     outs += run(h.body, [p.fork()])
             if st.finalbody:
                 outs = run(st.finalbody, outs)
@@ -271,9 +280,10 @@ def return_paths(func, max_paths=400, inline=True, _depth=0):
         args = _bind_args(h, call)
         if args is None:
             return None
-        key = (id(h.node), _depth)
+        key = (id(h.node), _depth, with_raises)
         if key not in _HELPER_CACHE:
-            _HELPER_CACHE[key] = return_paths(h, max_paths, True, _depth + 1)
+            _HELPER_CACHE[key] = return_paths(h, max_paths, True, _depth + 1,
+                                              with_raises)
         hp = _HELPER_CACHE[key]
         if hp is None or len(hp) > 12:
             return None
@@ -294,6 +304,10 @@ def return_paths(func, max_paths=400, inline=True, _depth=0):
                     continue
                 e2 = sub.visit(copy.deepcopy(e))
                 n.effects.append(e2)
+            if q.raised is not None:
+                n.raised = n.effects[-1]
+                done.append(n)
+                continue
             for k, (val, pos) in q.env.items():
                 n.env[h.name + '$' + k] = (sub.visit(copy.deepcopy(val)),
                                            len(n.effects) - 1)
